@@ -162,11 +162,12 @@ def run_property(prop, tier, seed, replay=None, shards=None, quiet=False):
         )
         top = sorted(c.items())[:60]
         print("  counters:", ", ".join(f"{k}={v}" for k, v in top))
+    if inconclusive and not quiet:
+        for i in inconclusive:
+            print(f"INCONCLUSIVE property={prop} reason={i}")
     if unlisted:
         return 1, merged
     if inconclusive:
-        for i in inconclusive:
-            print(f"INCONCLUSIVE property={prop} reason={i}")
         return 2, merged
     return 0, merged
 
